@@ -597,9 +597,11 @@ def _run_stream_exchange_sync(
                     state_obj.on_cancel(cancel_ctx)
                 except Exception:
                     _logger.debug("on_cancel hook failed", exc_info=True)
+                # The response carries the client logs on_cancel emitted (as the
+                # socket transports deliver them), then ends.
                 resp_buf = BytesIO()
-                with new_ipc_stream(resp_buf, output_schema):
-                    pass
+                with new_ipc_stream(resp_buf, output_schema) as cancel_writer:
+                    cancel_sink.flush_contents(cancel_writer, output_schema)
                 resp_buf.seek(0)
                 return resp_buf
 
